@@ -1,8 +1,12 @@
 //! protox — bounded-exhaustive exploration of the sans-IO crate `wtransport-proto`.
 mod adapt;
 mod c11;
+mod c12;
+mod c13;
 mod c14;
 mod c15;
+mod c17;
+mod c18;
 mod subjects;
 mod util;
 
@@ -17,8 +21,12 @@ fn main() {
         let sc = &v["scenario"];
         let res = match args.prop.as_str() {
             "C11" => c11::replay(sc),
+            "C12" => c12::replay(sc),
+            "C13" => c13::replay(sc),
             "C14" => c14::replay(sc),
             "C15" => c15::replay(sc),
+            "C17" => c17::replay(sc),
+            "C18" => c18::replay(sc),
             p => vx::machinery(&format!("protox: no replay for {p}")),
         };
         match res {
@@ -35,8 +43,12 @@ fn main() {
     }
     let code = match args.prop.as_str() {
         "C11" => c11::run(&args),
+        "C12" => c12::run(&args),
+        "C13" => c13::run(&args),
         "C14" => c14::run(&args),
         "C15" => c15::run(&args),
+        "C17" => c17::run(&args),
+        "C18" => c18::run(&args),
         p => vx::machinery(&format!("protox does not serve {p}")),
     };
     std::process::exit(code)
